@@ -291,6 +291,12 @@ is_standard_layout() const {
     if ((*di)._is_virtual) {
       return false;
     }
+    if (base == nullptr) {
+      // We don't know what this base class is (it is only forward-declared,
+      // or depends on a template parameter); like the other predicates,
+      // assume that it does not stand in the way.
+      continue;
+    }
 
     // If this class had instance members, all base classes need to be empty.
     if (member_vis != V_unknown) {
